@@ -72,7 +72,7 @@ def path_op(ctx, job, box):
 
 def jobs(tier):
     js = [Job('new/parametric', path_new, maxl=(12 if tier == 'quick' else 40), prop=PROP)]
-    gs = [(2, 1), (3, 2)] if tier == 'quick' else [(1, 1), (2, 1), (1, 2), (3, 2), (2, 3)]
+    gs = [(2, 1), (3, 2), (1, 3)] if tier == 'quick' else [(1, 1), (2, 1), (1, 2), (3, 2), (2, 3), (1, 4)]
     for g in gs:
         for spec in sweep.ops(tier, g[0], g[1]):
             js.append(Job('%s/%dx%d' % (spec[0], g[0], g[1]), path_op, opspec=spec, geom=g, prop=PROP))
@@ -88,7 +88,7 @@ def jobs(tier):
 META = {
     'functions': ['Screen::new', 'Screen::reset', 'Screen::resize', 'display', 'all 37 ParserListener methods of Screen'],
     'bounds': 'Screen::new for symbolic columns 1..=140, lines 1..=12 (thorough 40); every operation of the sweep from '
-              'symbolic well-formed states on geometries quick {2x1,3x2}, thorough {1x1,2x1,1x2,3x2,2x3}; numeric '
+              'symbolic well-formed states on geometries quick {2x1,3x2,1x3}, thorough {1x1,2x1,1x2,3x2,2x3,1x4}; numeric '
               'arguments absent or 0..=9999; resize targets 1..=max+2 in both dimensions; DECCOLM executed for real',
     'outside': 'larger geometries for grid operations (scalar operations are covered parametrically by C05/C06/C18); '
                'byte-level input (C01/C11)',
